@@ -88,7 +88,9 @@ Inductive eop :=
 | ECheckKept (key : Z) (hash : Z) (mid : bool) (* kept promise + mid-trip flag *)
 | ECheckAdmin (hash : Z)
 | ECheckTable (hash : Z)
-| ERestart.
+| ERestart
+| ESave                                       (* remember the current state ... *)
+| ERestore.                                   (* ... and return to it (the harness ran a copy of the database) *)
 
 Definition perr_code (e : perr) : Z :=
   match e with
@@ -120,7 +122,8 @@ Definition hash_ledger (t : traveller NumF) : Z :=
 Definition hash_book_of (t : traveller NumF) : Z := Uint63.to_Z (hash_book 7%uint63 (t_book t)).
 Definition hash_kept (t : traveller NumF) : Z := Uint63.to_Z (hash_promise 7%uint63 (t_kept t)).
 
-Record rstate := mkR { r_eng : engine NumF; r_slots : list (nat * proposal NumF) }.
+Record rstate := mkR0 { r_eng : engine NumF; r_slots : list (nat * proposal NumF); r_saved : option (engine NumF) }.
+Definition mkR (e : engine NumF) (sl : list (nat * proposal NumF)) : rstate := mkR0 e sl None.
 
 Fixpoint slot_get (l : list (nat * proposal NumF)) (k : nat) : option (proposal NumF) :=
   match l with [] => None | (k', p) :: r => if Nat.eqb k k' then Some p else slot_get r k end.
@@ -134,28 +137,28 @@ Definition e_step (s : rstate) (o : eop) : rstate * bool :=
   match o with
   | ESetParams p res =>
       match set_params (e_admin e) p with
-      | inl a => (mkR {| e_admin := a; e_table := e_table e |} (r_slots s), res =? 0)
+      | inl a => (mkR0 {| e_admin := a; e_table := e_table e |} (r_slots s) (r_saved s), res =? 0)
       | inr er => (s, res =? eng_err_code er)
       end
   | ESubmit k fs now debit res =>
       let '(e', r) := submit_flights e k (map flight_of fs) now debit in
-      (mkR e' (r_slots s), res =? res_code r)
+      (mkR0 e' (r_slots s) (r_saved s), res =? res_code r)
   | EUpdate now fit res mask st =>
       let '(e', us, r) := update_all e now (map fl fit) in
-      (mkR e' (r_slots s), (res =? res_code r) && (match r with None => stats_ok mask us st | Some _ => true end))
+      (mkR0 e' (r_slots s) (r_saved s), (res =? res_code r) && (match r with None => stats_ok mask us st | Some _ => true end))
   | EPropose k fs te now res slot hash =>
       match engine_propose e k (map flight_of fs) te now with
-      | PrOk pp => (mkR e ((slot, pp) :: r_slots s), (res =? 0) && (hash_proposal pp =? hash))
+      | PrOk pp => (mkR0 e ((slot, pp) :: r_slots s) (r_saved s), (res =? 0) && (hash_proposal pp =? hash))
       | PrErr er => (s, res =? eng_err_code er)
       | PrHang => (s, res =? 97)
       end
   | EMake k slot now res =>
       match slot_get (r_slots s) slot with
       | None => (s, false)
-      | Some pp => let '(e', r) := engine_make e k pp now in (mkR e' (r_slots s), res =? res_code r)
+      | Some pp => let '(e', r) := engine_make e k pp now in (mkR0 e' (r_slots s) (r_saved s), res =? res_code r)
       end
-  | EEndTrip k ok => let '(e', b) := engine_end_trip e k in (mkR e' (r_slots s), Bool.eqb b ok)
-  | EReopen k ok => let '(e', b) := engine_reopen_trip e k in (mkR e' (r_slots s), Bool.eqb b ok)
+  | EEndTrip k ok => let '(e', b) := engine_end_trip e k in (mkR0 e' (r_slots s) (r_saved s), Bool.eqb b ok)
+  | EReopen k ok => let '(e', b) := engine_reopen_trip e k in (mkR0 e' (r_slots s) (r_saved s), Bool.eqb b ok)
   | ECheckTrav k present hash =>
       match tget (e_table e) k with
       | Some t => (s, present && (hash_trav t =? hash))
@@ -177,6 +180,8 @@ Definition e_step (s : rstate) (o : eop) : rstate * bool :=
   | ECheckAdmin hash => (s, hash_admin (e_admin e) =? hash)
   | ECheckTable hash => (s, hash_table (e_table e) =? hash)
   | ERestart => (s, true)
+  | ESave => (mkR0 e (r_slots s) (Some e), true)
+  | ERestore => match r_saved s with Some e0 => (mkR0 e0 (r_slots s) (r_saved s), true) | None => (s, false) end
   end.
 
 Fixpoint e_run (s : rstate) (k : nat) (ops : list eop) : list nat :=
